@@ -2,6 +2,7 @@ package ovsdb
 
 import (
 	"fmt"
+	"math"
 	"reflect"
 )
 
@@ -99,6 +100,11 @@ func OvsToNativeAtomic(basicType string, ovsElem interface{}) (interface{}, erro
 		// Default decoding of numbers is float64, convert them to int
 		if !reflect.TypeOf(ovsElem).ConvertibleTo(naType) {
 			return nil, NewErrWrongType("OvsToNativeAtomic", fmt.Sprintf("Convertible to %s", naType), ovsElem)
+		}
+		// a number with a fractional part is not an integer: reject it
+		// instead of truncating it
+		if f, ok := ovsElem.(float64); ok && f != math.Trunc(f) {
+			return nil, NewErrWrongType("OvsToNativeAtomic", "integer", ovsElem)
 		}
 		return reflect.ValueOf(ovsElem).Convert(naType).Interface(), nil
 	case TypeUUID:
